@@ -6,6 +6,7 @@
 //! checker. Case: (C18 id R threads (event...)) with events
 //!   (c tid inv res type handle|e) (g tid inv res h (ok content)|e) (n tid inv res h (ok type)|e)
 //!   (u tid inv res h (ok newhandle)|e) (f tid inv res h)
+//!   (r tid inv res h (ok 0)|e|(ok -1)): a call with a LIST of handles, h first (resolved / not resolved / neither)
 use crate::out::Out;
 use crate::rng::Rng;
 use crate::world;
@@ -26,7 +27,43 @@ extern "C" {
     fn anoncreds_update_revocation_status_list_timestamp_only(timestamp: i64, list: usize, result_p: *mut usize) -> usize;
     fn anoncreds_revocation_state_from_json(json: ByteBuffer, result_p: *mut usize) -> usize;
     fn anoncreds_revocation_registry_definition_from_json(json: ByteBuffer, result_p: *mut usize) -> usize;
+    fn anoncreds_credential_definition_from_json(json: ByteBuffer, result_p: *mut usize) -> usize;
+    fn anoncreds_revocation_registry_definition_private_from_json(json: ByteBuffer, result_p: *mut usize) -> usize;
+    fn anoncreds_update_revocation_status_list(cred_def: usize, reg_def: usize, reg_priv: usize, list: usize, issued: RawList, revoked: RawList, timestamp: i64, result_p: *mut usize) -> usize;
+    fn anoncreds_presentation_from_json(json: ByteBuffer, result_p: *mut usize) -> usize;
+    fn anoncreds_presentation_request_from_json(json: ByteBuffer, result_p: *mut usize) -> usize;
+    #[allow(improper_ctypes)]
+    fn anoncreds_verify_presentation(presentation: usize, pres_req: usize, schemas: HList, schema_ids: HList, cred_defs: HList, cred_def_ids: HList, rev_reg_defs: HList, rev_reg_def_ids: HList, rev_status_list: HList, overrides: HList, result_p: *mut i8) -> usize;
     fn anoncreds_create_or_update_revocation_state(rev_reg_def: usize, list: usize, idx: i64, tails_path: *const c_char, rev_state: usize, old_list: usize, result_p: *mut usize) -> usize;
+}
+
+/// the C layout of the library's list argument (count, data)
+#[repr(C)]
+struct RawList {
+    count: usize,
+    data: *const i32,
+}
+
+/// a list of handles (or an empty list of anything: count 0, no data)
+#[repr(C)]
+struct HList {
+    count: usize,
+    data: *const usize,
+}
+fn no_list() -> HList {
+    HList { count: 0, data: std::ptr::null() }
+}
+/// the call with a LIST of handles: verification of a fixed presentation (self-attested values only) against its request,
+/// with `first` followed by `filler` copies of a status list that is never freed as the status lists. The list is
+/// resolved entry by entry before anything else is looked at, so the return code tells whether `first` resolved
+/// to a status list (the code measured for a live one at start-up) or not (the code measured for handle 0).
+fn list_call(sh: &Shared, first: usize) -> usize {
+    let mut hs = vec![first];
+    hs.extend(std::iter::repeat(sh.list_h).take(sh.filler));
+    let mut ok: i8 = 0;
+    unsafe {
+        anoncreds_verify_presentation(sh.pres_h, sh.req_h, no_list(), no_list(), no_list(), no_list(), no_list(), no_list(), HList { count: hs.len(), data: hs.as_ptr() }, no_list(), &mut ok)
+    }
 }
 
 #[derive(Clone, Debug)]
@@ -37,6 +74,10 @@ enum Op {
     Use(Target),
     /// a call with an OPTIONAL handle argument (0 = not supplied): the older revocation state
     OptUse(Target),
+    /// a call that takes a list of handles, the target first
+    ListUse(Target),
+    /// wait (busy) for about so many microseconds; not recorded
+    Spin(u64),
     Free(Target),
 }
 #[derive(Clone, Debug)]
@@ -53,6 +94,14 @@ struct Shared {
     /// infrastructure objects created before the threads start and never freed
     reg_def_h: usize,
     list_h: usize,
+    cred_def_h: usize,
+    reg_priv_h: usize,
+    pres_h: usize,
+    req_h: usize,
+    filler: usize,
+    /// return codes of the list call measured at start-up: first entry a live status list / handle 0
+    rc_resolved: usize,
+    rc_invalid: usize,
     tails_path: std::ffi::CString,
 }
 
@@ -154,13 +203,44 @@ fn run_thread(tid: usize, prog: &[Op], sh: &Shared, barrier: &Barrier, slot_base
                 let h = resolve(t, &own);
                 let mut nh: usize = 0;
                 let inv = sh.clock.fetch_add(1, Ordering::SeqCst);
-                let rc = unsafe { anoncreds_update_revocation_status_list_timestamp_only(7, h, &mut nh) };
+                // three typed uses that derive a new list from the one named: a new timestamp only, and the full
+                // update with nothing issued and nothing revoked, without and with a timestamp
+                let none = || RawList { count: 0, data: std::ptr::null() };
+                let rc = unsafe {
+                    match h.wrapping_add(tid) % 3 {
+                        0 => anoncreds_update_revocation_status_list_timestamp_only(7, h, &mut nh),
+                        1 => anoncreds_update_revocation_status_list(sh.cred_def_h, sh.reg_def_h, sh.reg_priv_h, h, none(), none(), 0, &mut nh),
+                        _ => anoncreds_update_revocation_status_list(sh.cred_def_h, sh.reg_def_h, sh.reg_priv_h, h, none(), none(), 9, &mut nh),
+                    }
+                };
                 let res = sh.clock.fetch_add(1, Ordering::SeqCst);
                 if rc == 0 {
                     own.push(nh);
                     ev.push(format!("(u {} {} {} {} (ok {}))", tid, inv, res, h, nh));
                 } else {
                     ev.push(format!("(u {} {} {} {} e)", tid, inv, res, h));
+                }
+            }
+            Op::Spin(us) => {
+                let t0 = std::time::Instant::now();
+                while (t0.elapsed().as_micros() as u64) < *us {
+                    std::hint::spin_loop();
+                }
+            }
+            Op::ListUse(t) => {
+                if sh.rc_resolved == sh.rc_invalid {
+                    continue; // the two outcomes cannot be told apart by the return code: nothing to record
+                }
+                let h = resolve(t, &own);
+                let inv = sh.clock.fetch_add(1, Ordering::SeqCst);
+                let rc = list_call(sh, h);
+                let res = sh.clock.fetch_add(1, Ordering::SeqCst);
+                if rc == sh.rc_resolved {
+                    ev.push(format!("(r {} {} {} {} (ok 0))", tid, inv, res, h));
+                } else if rc == sh.rc_invalid {
+                    ev.push(format!("(r {} {} {} {} e)", tid, inv, res, h));
+                } else {
+                    ev.push(format!("(r {} {} {} {} (ok -1))", tid, inv, res, h)); // neither: e.g. a panic inside the call
                 }
             }
             Op::OptUse(t) => {
@@ -218,7 +298,7 @@ fn gen_prog(r: &mut Rng, len: usize, nslots: usize) -> Vec<Op> {
             2 | 3 => Op::Get(t),
             4 => Op::Name(t),
             5 | 6 => Op::Use(t),
-            7 => Op::OptUse(t),
+            7 => if r.below(2) == 0 { Op::OptUse(t) } else { Op::ListUse(t) },
             _ => Op::Free(t),
         });
     }
@@ -252,17 +332,70 @@ pub fn run(tier: &str, seed: u64, outdir: &str) {
         vec![serde_json::to_vec(&l0).unwrap(), serde_json::to_vec(&l1).unwrap(), serde_json::to_vec(&l2).unwrap()],
         states,
     ];
-    let (mut reg_def_h, mut list_h) = (0usize, 0usize);
+    let (mut reg_def_h, mut list_h, mut cred_def_h, mut reg_priv_h) = (0usize, 0usize, 0usize, 0usize);
     unsafe {
+        assert_eq!(anoncreds_credential_definition_from_json(buf(&serde_json::to_vec(&cd.cred_def).unwrap()), &mut cred_def_h), 0);
+        assert_eq!(anoncreds_revocation_registry_definition_private_from_json(buf(&serde_json::to_vec(&reg.def_priv).unwrap()), &mut reg_priv_h), 0);
         assert_eq!(anoncreds_revocation_registry_definition_from_json(buf(&serde_json::to_vec(&reg.def).unwrap()), &mut reg_def_h), 0);
         assert_eq!(anoncreds_revocation_status_list_from_json(buf(&serde_json::to_vec(&l0).unwrap()), &mut list_h), 0);
+    }
+    // a presentation (self-attested values only) and its request, for the call with a list of handles
+    let (mut pres_h, mut req_h) = (0usize, 0usize);
+    {
+        use anoncreds::data_types::pres_request::PresentationRequest;
+        use anoncreds::types::PresentCredentials;
+        let mk = |referent: &str| -> PresentationRequest {
+            serde_json::from_value(json!({"nonce": "123432421212", "name": "r", "version": "0.1",
+                "requested_attributes": {referent: {"name": "nickname"}}, "requested_predicates": {}})).unwrap()
+        };
+        let asked = mk("attr1_referent");
+        let ls = anoncreds::prover::create_link_secret().unwrap();
+        let sa: std::collections::HashMap<String, String> = [("attr1_referent".to_string(), "nick".to_string())].into_iter().collect();
+        let pres = anoncreds::prover::create_presentation(&asked, PresentCredentials::default(), Some(sa), &ls, &Default::default(), &Default::default()).unwrap();
+        unsafe {
+            assert_eq!(anoncreds_presentation_from_json(buf(&serde_json::to_vec(&pres).unwrap()), &mut pres_h), 0);
+            assert_eq!(anoncreds_presentation_request_from_json(buf(&serde_json::to_vec(&asked).unwrap()), &mut req_h), 0);
+        }
+    }
+    let filler = 2000usize;
+    let mut probe = Shared { clock: AtomicU64::new(1), slots: vec![], docs: vec![], reg_def_h, list_h, cred_def_h, reg_priv_h, pres_h, req_h, filler, rc_resolved: 0, rc_invalid: 0, tails_path: std::ffi::CString::new(tails_path.clone()).unwrap() };
+    let t0 = std::time::Instant::now();
+    probe.rc_resolved = list_call(&probe, list_h);
+    let list_us = t0.elapsed().as_micros() as u64;
+    if std::env::var("AVH_DEBUG").is_ok() {
+        extern "C" {
+            fn anoncreds_get_current_error(p: *mut *const c_char) -> usize;
+        }
+        let mut p: *const c_char = std::ptr::null();
+        unsafe { anoncreds_get_current_error(&mut p) };
+        if !p.is_null() {
+            eprintln!("list call, resolved: {}", unsafe { std::ffi::CStr::from_ptr(p) }.to_string_lossy());
+        }
+    }
+    probe.rc_invalid = list_call(&probe, 0);
+    let (rc_resolved, rc_invalid) = (probe.rc_resolved, probe.rc_invalid);
+    if std::env::var("AVH_DEBUG").is_ok() {
+        eprintln!("list call: resolved rc={} invalid rc={} {} us", rc_resolved, rc_invalid, list_us);
     }
     let runs = if thorough { 6000 } else { 400 };
     for k in 0..runs {
         let nthreads = 2 + (k % 3) as usize;
         let nslots = 4;
-        let sh = Arc::new(Shared { clock: AtomicU64::new(1), slots: (0..nslots).map(|_| AtomicUsize::new(0)).collect(), docs: docs.clone(), reg_def_h, list_h, tails_path: std::ffi::CString::new(tails_path.clone()).unwrap() });
-        let progs: Vec<Vec<Op>> = (0..nthreads).map(|_| { let len = 6 + r.below(10) as usize; gen_prog(&mut r, len, nslots) }).collect();
+        let sh = Arc::new(Shared { clock: AtomicU64::new(1), slots: (0..nslots).map(|_| AtomicUsize::new(0)).collect(), docs: docs.clone(), reg_def_h, list_h, cred_def_h, reg_priv_h, pres_h, req_h, filler, rc_resolved, rc_invalid, tails_path: std::ffi::CString::new(tails_path.clone()).unwrap() });
+        let progs: Vec<Vec<Op>> = if k % 4 == 3 {
+            // directed: one thread uses a list whose first entry another thread frees at a moment swept over the call
+            // (thread 0 publishes its first object into slot 1)
+            let mut ps = vec![
+                vec![Op::Create(1, r.below(3) as usize), Op::ListUse(Target::Own(0)), Op::Get(Target::Own(0)), Op::Create(0, 0), Op::Get(Target::Own(1))],
+                vec![Op::Create(0, 1), Op::Spin(r.below(list_us + 60)), Op::Free(Target::Slot(1)), Op::Name(Target::Slot(1)), Op::Create(1, 0), Op::Get(Target::Own(1))],
+            ];
+            for _ in 2..nthreads {
+                ps.push(vec![Op::Create(2, 0), Op::Spin(r.below(list_us + 60)), Op::ListUse(Target::Slot(1)), Op::Get(Target::Own(0))]);
+            }
+            ps
+        } else {
+            (0..nthreads).map(|_| { let len = 6 + r.below(10) as usize; gen_prog(&mut r, len, nslots) }).collect()
+        };
         let barrier = Arc::new(Barrier::new(nthreads));
         let mut handles = vec![];
         for (tid, prog) in progs.iter().cloned().enumerate() {
